@@ -15,6 +15,7 @@ from symx.harness import Wz, cone_set, dotz, frac_json, from_frac_json, make_ord
 from symx.sym import HarnessError, Sym
 
 from checks import algo as A
+from checks.c20 import noise_task  # noqa: F401 (task entry point: the sampling oracle NaiveElimination draws from)
 from checks.c19 import _alpha_for, exact_alpha
 
 PROPERTY = "C08"
@@ -180,6 +181,9 @@ def default_L_task(theta, delta, K, tier):
 
 
 def replay(case):
+    if case.get("kind") == "noise":
+        from checks import c20
+        return c20.replay(case)
     mod = _mod()
     import vopy.order as vo
     if case["kind"] == "paper_L":
@@ -248,6 +252,9 @@ def tasks(tier, seed):
             continue
         ts.append({"id": f"naive_P[{cone}]", "fn": "means_task",
                    "args": {"cone": cone, "W": W.tolist(), "K": 3, "L": 2 if tier == "quick" else 3, "tier": tier}, "weight": 50})
+    # "Gaussian sampling noise of the configured variance": the dataset problem the algorithm samples from must add
+    # noise whose covariance is noise_var·I (the same obligation as in C20, on the path NaiveElimination uses)
+    ts.append({"id": "sampling_noise[dataset,m=2]", "fn": "noise_task", "args": {"kind": "dataset", "n": 2, "m": 2, "tier": tier}})
     for theta in ((10, 30, 60, 90, 120) if tier == "quick" else (5, 10, 20, 30, 45, 60, 75, 90, 120, 150)):
         for delta in ((0.05,) if tier == "quick" else (0.01, 0.05, 0.2)):
             for K in ((2, 32) if tier == "quick" else (2, 8, 32, 500)):
@@ -258,8 +265,9 @@ def tasks(tier, seed):
 
 def meta(tier):
     cls = _mod().NaiveElimination
+    import vopy.maximization_problem as mp_
     return {"level": "model_checking",
-            "functions": src_info(cls.__init__, cls.run_one_step, cls.P),
+            "functions": src_info(cls.__init__, cls.run_one_step, cls.P, mp_.ProblemFromDataset.__init__, mp_.ProblemFromDataset.evaluate),
             "bounds": {"clause B": "K = 3 designs, L ≤ 2 (3 thorough) rounds, m = 2, 2-D cones of the set",
                        "clause A": "noise_var ∈ [1e-4, 1e2], ε ∈ (0, 2] symbolic; θ, δ, K on a grid"},
             "stubs": ["recording problem returning fresh symbolic observation blocks", "np.ceil: c with x ≤ c < x+1",
